@@ -2494,6 +2494,18 @@ func unmarshalUDT(info TypeInfo, data []byte, value interface{}) error {
 	udt := info.(UDTTypeInfo)
 	for id, e := range udt.Elements {
 		if len(data) == 0 {
+			// the value was written before the remaining fields were added
+			// to the type: they are null, a destination that was used before
+			// must not keep what it held
+			for _, rest := range udt.Elements[id:] {
+				f, ok := fields[rest.Name]
+				if !ok {
+					f = k.FieldByName(rest.Name)
+				}
+				if f.IsValid() && f.CanSet() {
+					f.Set(reflect.Zero(f.Type()))
+				}
+			}
 			return nil
 		}
 		if len(data) < 4 {
